@@ -1640,24 +1640,62 @@ def run_fee_prices(tier, log, seed):
     if fn is None:
         inconcl.append("reward_beneficiary: MIR body not found uniquely")
     else:
-        eff = [l for n, l in fn.debug_all if n == "effective_gas_price"]
-        cgp = [l for n, l in fn.debug_all if n == "coinbase_gas_price"]
-        if len(eff) != 1 or len(cgp) != 1:
-            inconcl.append("reward_beneficiary: locals effective_gas_price / coinbase_gas_price not identifiable")
-        else:
-            eff, cgp = eff[0], cgp[0]
-            eff_ok = [d for d in defs_of(fn, eff) if re.match(r"^primitives::env::Env::effective_gas_price\(", d)]
-            bad = []
-            for d in defs_of(fn, cgp):
-                if re.match(r"^(?:copy|move) %s$" % re.escape(eff), d):
-                    continue
-                m = re.match(r"^ruint::add::<impl Uint<256, 4>>::saturating_sub\(copy %s, (?:move|copy) (_\d+)\)" % re.escape(eff), d)
+        # the price is found from where it is USED, not from its name: balance <- saturating_add(balance, PRICE * U256::from(gas)), where the
+        # other factor is a u64 turned into a word; every reaching definition of PRICE is then classified
+        def one(local):
+            d = defs_of(fn, local)
+            return d[0] if len(d) == 1 else None
+        price = None
+        stores = [m.group(1) for b in fn.blocks.values() for s_ in b.stmts
+                  for m in [re.match(r"^\(\(\(\*_\d+\)\.0: [\w:]*AccountInfo\)\.0: [\w:]*Uint<256, 4>\) = move (_\d+)$", s_)] if m]
+        if len(stores) == 1:
+            m = re.match(r"^ruint::add::<impl Uint<256, 4>>::saturating_add\(move (_\d+), move (_\d+)\)", one(stores[0]) or "")
+            if m:
+                mm = re.match(r"^<Uint<256, 4> as Mul>::mul\(move (_\d+), move (_\d+)\)", one(m.group(2)) or "")
+                if mm:
+                    x, y = mm.group(1), mm.group(2)
+                    fx, fy = ("from::<u64>(" in (one(x) or "")), ("from::<u64>(" in (one(y) or ""))
+                    if fx != fy:
+                        price = y if fx else x
+
+        def classify(local, depth=0):
+            """set of classes of the reaching definitions of `local`: 'eff', 'eff-basefee', or a ('bad', text)"""
+            out = set()
+            if depth > 6:
+                return {("bad", "definition chain too deep")}
+            for d in defs_of(fn, local):
+                d0 = re.sub(r"^no_retag ", "", d)
+                m = re.match(r"^(?:copy|move) (_\d+)$", d0)
                 if m:
-                    sub = defs_of(fn, m.group(1))
-                    if len(sub) == 1 and re.search(r"BlockEnv\)\.4: ruint::Uint<256, 4>\)|basefee", sub[0]):
-                        continue
+                    out |= classify(m.group(1), depth + 1)
+                    continue
+                if re.match(r"^primitives::env::Env::effective_gas_price\(", d0):
+                    out.add("eff")
+                    continue
+                m = re.match(r"^ruint::add::<impl Uint<256, 4>>::saturating_sub\((?:copy|move) (_\d+), (?:move|copy) (_\d+)\)", d0)
+                if m and classify(m.group(1), depth + 1) == {"eff"}:
+                    sub = defs_of(fn, m.group(2))
                     # the subtracted operand must be block.basefee (field 4 of BlockEnv)
-                bad.append(d[:120])
+                    if len(sub) == 1 and re.search(r"BlockEnv\)\.4: [\w:]*Uint<256, 4>\)", sub[0]):
+                        out.add("eff-basefee")
+                        continue
+                out.add(("bad", d0[:120]))
+            return out
+        if price is None:
+            # shape of the credit not recognised: the real code answers (fee cap clipping the tip), and only a reproduced difference is reported
+            st, out = native.call("debug", "reward_amount", log=log)
+            m = re.search(r"coinbase_received=(\d+) expected=(\d+)", out) if st == "ok" else None
+            if m and m.group(1) != m.group(2):
+                failures.append(dict(id="reward-price", reproduced=True,
+                                     description=f"reward_beneficiary: the credit `balance + price x gas` was not recognised in MIR | native (fee cap clips the tip): {out}"))
+            else:
+                inconcl.append("reward_beneficiary: the credit `balance.saturating_add(price * U256::from(gas))` not recognised" + (f" (native scenario agrees with the rule: {out[:120]})" if m else f"; native: {st} {out[:200]}"))
+        else:
+            if True:
+                cls = classify(price)
+                cgp = price
+                bad = sorted(c[1] for c in cls if isinstance(c, tuple))
+                eff_ok = [1] if (cls and not bad) else []
             term = "false" if (bad or len(eff_ok) != 1) else "true"
             v, model, detail = duo.check(["(declare-const x Bool)"], [f"(not {term})"])
             samples.append(f"reward_beneficiary: definitions of the per-gas price: {len(defs_of(fn, cgp))}, not derived from effective_gas_price [- basefee]: {bad}: {v}")
